@@ -63,6 +63,7 @@ func runProperty(cfg *PropConfig, tier string, seed int) *propResult {
 		return res
 	}
 	E.coverReturns = tier == "thorough"
+	lockDiscipline = cfg.LockDiscipline
 	E.masks = map[string]Expr{}
 	for _, k := range loadKnown() {
 		if k.Status == "open" && k.Property == cfg.ID && k.Mask != "" {
@@ -299,6 +300,9 @@ func (res *propResult) write(cfg *PropConfig, tier string, seed int, wall float6
 		"slices/strings are shorter than 2^40 elements; append always yields a fresh backing array (aliasing through spare capacity not modelled)",
 		"integer arithmetic: mathematical integers with a no-wrap obligation on every + - * (arith=int), or exact machine bit-vectors (arith=bv)",
 	)
+	if !cfg.LockDiscipline {
+		as = append(as, "lock discipline: that a lock is not already held by the calling goroutine when a function that takes it is called (preconditions labelled C32-...) is decided by the C32 check, not here")
+	}
 	ev := EvidenceOut{PropertyID: cfg.ID, Tier: tier, Seed: seed, Level: "proof", Coverage: cov, Assumptions: as, WallS: wall, Violations: len(res.violations)}
 	os.MkdirAll(filepath.Join(verifRoot(), "evidence"), 0o755)
 	b, _ := json.MarshalIndent(ev, "", " ")
